@@ -1,9 +1,10 @@
 """C14 — clock domains stay in ratio; the internal clock holds tempo under delay.
-Theorems: coq/Props/C14.v over the models coq/Clock/{Multiplier,ClockRun,MidiIn}.v.
+Theorems: coq/Props/C14.v over the models coq/Clock/{Multiplier,ClockRun,MidiIn,MidiInTimed}.v.
 Correspondence (every run): make_clock_multiplier on ALL ordered rate pairs up to 1920 with one dividing the other
 (+ sampled non-dividing pairs, None/0 rates), Timeline.tick() with 1-3 recording devices (and a MidiOutputDevice on a
 fake port), Clock.run against a scripted virtual clock (jitter, stalls, tempo changes from the callback and between
-wake-ups, exact-boundary dyadic scripts), MidiInputDevice._callback on message sequences, each compared inside Coq
+wake-ups, exact-boundary dyadic scripts), MidiInputDevice._callback on message sequences under a virtual wall clock
+(gaps from microseconds to hours, time standing still / going backwards), each compared inside Coq
 (vm_compute) with the model.  Oracle: closed forms in exact arithmetic (fractions.Fraction) from the property text."""
 from common import *
 import math
@@ -12,10 +13,14 @@ PROP = "C14"
 MAXRATE = 1920
 META = {
  "engine": "S-scheduler",
- "text": "Coq theorems (Props/C14.v, closed under the global context) prove, for ALL positive rates below 10^8 and all run lengths: after n timeline ticks a device has received exactly ceil(n*out/in) ticks (out | in: one tick on timeline tick 0 and then on every (in/out)-th, so every window of in/out ticks holds exactly one; in | out: exactly out/in per tick; any window of `in` timeline ticks = one beat holds exactly `out` device ticks, hence 24 MIDI clocks per beat), the code's round(pos, 8) > 1 test agrees with the exact comparison, a pair is refused on the first next() exactly when neither rate divides the other and never otherwise, a device without a rate gets one tick per tick; for the internal clock, for ANY non-decreasing sequence of clock readings (arbitrary lateness, stalls) the total number of ticks delivered after each wake-up is floor((t - t0)/delta) (none dropped or doubled), after a tempo change the ticks follow the new duration exactly from the next tick, and an external MIDI clock produces exactly one tick per clock message (start/stop/songpos 0 -> start/stop/reset, nothing else ticks). The models are tied to the repository on every run: make_clock_multiplier on every ordered dividing pair up to 1920 (exhaustive) and sampled non-dividing pairs, Timeline.tick with 1-3 devices incl. a MidiOutputDevice on a fake port, Clock.run on a scripted virtual clock, MidiInputDevice._callback; all compared inside Coq (vm_compute) and judged by an independent exact-arithmetic oracle that supplies the failing input.",
- "note": "Partial in the DESIGN sense: threads, time.sleep and the OS scheduler are outside the model (the theorem covers every sequence of readings, not the mechanism producing them); float rounding of `pos`/`clock0` accumulation is validated by the correspondence runs (readings kept >= 2e-6 s from deadlines except in the exactly-representable dyadic stratum), not proved; warpers, jitter>0 and the tempo estimate of MidiInputDevice are not modelled. Trusted: Coq kernel + VM; the Python harness; Python int //, % = Z.div/Z.modulo.",
+ "text": "Coq theorems (Props/C14.v, closed under the global context) prove, for ALL positive rates below 10^8 and all run lengths: after n timeline ticks a device has received exactly ceil(n*out/in) ticks (out | in: one tick on timeline tick 0 and then on every (in/out)-th, so every window of in/out ticks holds exactly one; in | out: exactly out/in per tick; any window of `in` timeline ticks = one beat holds exactly `out` device ticks, hence 24 MIDI clocks per beat), the code's round(pos, 8) > 1 test agrees with the exact comparison, a pair is refused on the first next() exactly when neither rate divides the other and never otherwise, a device without a rate gets one tick per tick; for the internal clock, for ANY non-decreasing sequence of clock readings (arbitrary lateness, stalls) the total number of ticks delivered after each wake-up is floor((t - t0)/delta) (none dropped or doubled), after a tempo change the ticks follow the new duration exactly from the next tick, and an external MIDI clock produces exactly one tick per clock message (start/stop/songpos 0 -> start/stop/reset, nothing else ticks) whatever the wall-clock readings the callback takes for its tempo estimate (any integers: equal, decreasing, microseconds or hours apart); on a steady clock the estimate is exactly 2.5/interval bpm. The models are tied to the repository on every run: make_clock_multiplier on every ordered dividing pair up to 1920 (exhaustive) and sampled non-dividing pairs, Timeline.tick with 1-3 devices incl. a MidiOutputDevice on a fake port, Clock.run on a scripted virtual clock, MidiInputDevice._callback with the time module it sees replaced by a scripted clock (13 time profiles); all compared inside Coq (vm_compute) and judged by an independent exact-arithmetic oracle that supplies the failing input.",
+ "note": "Partial in the DESIGN sense: threads, time.sleep and the OS scheduler are outside the model (the theorem covers every sequence of readings, not the mechanism producing them); float rounding of `pos`/`clock0` accumulation is validated by the correspondence runs (readings kept >= 2e-6 s from deadlines except in the exactly-representable dyadic stratum), not proved; warpers and jitter>0 are not modelled; the tempo estimate of MidiInputDevice is modelled exactly and compared with relative tolerance 1e-9 on strictly increasing readings only. Trusted: Coq kernel + VM; the Python harness; Python int //, % = Z.div/Z.modulo.",
 }
 HEADER = """From Isobar Require Import Base.Prelude Clock.Multiplier Clock.ClockRun Clock.MidiIn.
+"""
+HEADER_MIDI = """From Coq Require Import QArith.
+From Isobar Require Import Base.Prelude Clock.Multiplier Clock.ClockRun Clock.MidiIn Clock.MidiInTimed.
+Local Open Scope Z_scope.
 """
 SITE_MULT = "make_clock_multiplier"
 
@@ -737,73 +742,352 @@ def msg_lit(m, idx):
     return "(Other %d)" % idx
 
 
+# ---- the wall clock seen by the callback ---------------------------------------------------------------------
+# The property quantifies over ALL sequences of clock/start/stop/song-position messages: nothing about WHEN they arrive
+# may decide whether a 'clock' ticks the target.  Every message therefore carries the instant `time.time()` (and
+# monotonic/perf_counter) shows while the callback handles it, in units of 2^-20 s (exactly representable floats).
+UNIT = 2 ** 20
+PROFILES = ["back-to-back", "steady", "jitter", "tempo-jumps", "fast", "slow", "pauses", "dropouts", "frozen", "still",
+            "backwards", "wild", "intra"]
+TRANSPORT = ("start", "stop", "continue", "songpos")
+
+
+def loguniform(rng, lo, hi):
+    return max(lo, min(hi, int(round(math.exp(rng.uniform(math.log(lo), math.log(hi)))))))
+
+
+def gen_transport(rng, n):
+    """what a sequencer sends: runs of clocks, transport messages (stop ... continue / songpos 0, start), some notes"""
+    msgs = []
+    while len(msgs) < n:
+        for _ in range(rng.choice([1, 2, 6, 12, 24, 24, 48, 96])):
+            msgs.append(["clock"])
+            if rng.random() < 0.05:
+                msgs.append([rng.choice(NOTELIKE), rng.randint(0, 127)])
+        u = rng.random()
+        if u < 0.35:
+            msgs += [["stop"], ["continue"]]
+        elif u < 0.6:
+            msgs += [["stop"], ["songpos", 0], ["start"]]
+        elif u < 0.7:
+            msgs += [["stop"], ["songpos", rng.choice([0, 4, 16])], ["continue"]]
+        elif u < 0.8:
+            msgs.append(["start"])
+        elif u < 0.9:
+            msgs.append(["stop"])
+    return msgs[:n]
+
+
+def strip_startstop(msgs):
+    return [m for m in msgs if m[0] not in ("start", "stop")] or [["clock"]]
+
+
+def gen_times(rng, msgs, profile):
+    """instants (units) for the messages and the advance of the clock per reading inside one callback"""
+    t = rng.choice([1000, 1700000000]) * UNIT + rng.randrange(UNIT)
+    intra = 0
+    sub = profile
+    if profile == "intra":
+        intra = rng.choice([1, 7, 100, 5000])
+        sub = rng.choice(["steady", "wild", "pauses", "fast"])
+    bpm = rng.choice([20, 30, 60, 90, 120, 125, 140, 174, 200, 300]) if rng.random() < 0.6 else rng.uniform(20, 300)
+    if sub == "frozen":
+        bpm = rng.choice([120, 174, 200, 300])
+    d = max(1, int(round(2.5 / bpm * UNIT)))
+    coarse = rng.choice([16384, 16384, 1024, UNIT]) if sub == "frozen" else None      # a timer of 15.6 ms / 1 ms / 1 s resolution
+    times, last_clock, after_transport = [], None, False
+    for m in msgs:
+        if m[0] != "clock":
+            t += rng.randrange(0, max(1, d // 16)) if rng.random() < 0.7 else 0
+            after_transport = after_transport or m[0] in TRANSPORT
+            times.append(t)
+            continue
+        if last_clock is None:
+            t += rng.randrange(0, d)
+        else:
+            u = rng.random()
+            if sub == "back-to-back":
+                iv = rng.randint(3, 60)
+            elif sub == "steady" or sub == "frozen":
+                iv = d
+            elif sub == "jitter":
+                iv = max(1, int(round(d * rng.uniform(0.8, 1.2))))
+            elif sub == "tempo-jumps":
+                if u < 0.08:
+                    d = max(1, int(round(2.5 / rng.uniform(20, 300) * UNIT)))
+                iv = d
+            elif sub == "fast":
+                iv = loguniform(rng, 1, 1000)
+            elif sub == "slow":
+                iv = loguniform(rng, UNIT // 2, 120 * UNIT)
+            elif sub == "pauses":
+                iv = loguniform(rng, UNIT // 2, 3600 * UNIT) if (after_transport and u < 0.8) or u < 0.04 else d
+            elif sub == "dropouts":
+                iv = d * rng.choice([2, 3, 4, 10]) if u < 0.1 else d
+            elif sub == "still":
+                iv = 0 if u < 0.3 else d
+            elif sub == "backwards":
+                iv = -loguniform(rng, 1, 7200 * UNIT) if u < 0.08 else d
+            else:       # wild
+                iv = 0 if u < 0.05 else -loguniform(rng, 1, 2 ** 33) if u < 0.1 else loguniform(rng, 1, 2 ** 33)
+            t = max(t, last_clock + iv) if iv > 0 else last_clock + iv
+        t = max(t, UNIT)
+        last_clock, after_transport = t, False
+        times.append(t)
+    if coarse:
+        times = [x // coarse * coarse for x in times]
+    return times, intra
+
+
+def clock_intervals(c):
+    """per message: None, or for a 'clock' the difference between the reading the callback takes first and the last
+    reading taken while handling the previous 'clock' (None for the first clock)"""
+    out, last, intra = [], None, c.get("intra", 0)
+    for m, t in zip(c["msgs"], c["times"]):
+        if m[0] != "clock":
+            out.append(None)
+        elif last is None:
+            out.append(None)
+            last = t
+        else:
+            out.append(t - last)
+            last = t + intra
+    return out
+
+
+def raise_when(c, j):
+    """classifies an exception for the signature: 'zero-interval-clock' = a clock message handled at (within the few
+    readings one callback takes of) the instant of the previous clock message"""
+    if c["msgs"][j][0] != "clock":
+        return "other"
+    prev = [i for i in range(j) if c["msgs"][i][0] == "clock"]
+    if prev and abs(c["times"][j] - c["times"][prev[-1]]) <= 3 * c.get("intra", 0):
+        return "zero-interval-clock"
+    return "clock"
+
+
+def secs(units):
+    return "%.9g s" % (units / UNIT)
+
+
+SNIPPET = """import mido, isobar as iso, isobar.io.midi.input as mi
+mido.open_input = lambda *a, **k: type("FakePort", (), {"name": "fake"})()
+now = [0.0]
+def read():
+    now[0] += %r / 2**20; return now[0] - %r / 2**20
+class VirtualTime: time = monotonic = perf_counter = staticmethod(read)
+mi.time = VirtualTime
+ticks = []
+class Target:
+    def tick(self): ticks.append(1)
+    def start(self): pass
+    stop = reset = start
+dev = iso.MidiInputDevice(clock_target=Target())
+sent = 0
+for kind, arg, t in %s:
+    now[0] = t / 2**20; sent += kind == "clock"
+    try: dev._callback(mido.Message(kind, pos=arg) if kind == "songpos" else mido.Message(kind))
+    except Exception as e: print("raises", type(e).__name__)
+print(len(ticks), "ticks for", sent, "clock messages")"""
+
+
+def midi_snippet(c):
+    if all(m[0] in ("clock",) + TRANSPORT for m in c["msgs"]) and len(c["msgs"]) <= 60:
+        seq = [[m[0], m[1] if len(m) > 1 else 0, t] for m, t in zip(c["msgs"], c["times"])]
+        return SNIPPET % (c.get("intra", 0), c.get("intra", 0), json.dumps(seq))
+    return "see harness/impl/c14_impl.py run_midi_in (instants in units of 2^-20 s); case: %s" % json.dumps(c)[:1500]
+
+
+def judge_midi_in(run, c, r):
+    """independent oracle: per message the calls on the clock target, no exception.  Returns the list of
+    (index, kind, extra signature keys, text) of the FIRST offence of each kind."""
+    want = {"clock": [0], "start": [1], "stop": [2]}
+    raised = dict((j, name) for j, name in r.get("exc", []))
+    ivs = clock_intervals(c)
+    bad, seen = [], set()
+    for j, (m, got) in enumerate(zip(c["msgs"], r["per_msg"])):
+        w = want.get(m[0], [3] if m[0] == "songpos" and m[1] == 0 else [])
+        if not c["has_target"]:
+            w = []
+        run.cov["oracle_evaluations"] += 1
+        iv = ivs[j]
+        since = "" if iv is None else ", %s (%d units of 2^-20 s) after the previous clock message by time.time()" % (secs(iv), iv)
+        if j in raised:
+            when = raise_when(c, j)
+            key = ("midi-in-raises", raised[j], when)
+            if key not in seen:
+                seen.add(key)
+                bad.append((j, "midi-in-raises", {"error": raised[j], "when": when},
+                            "message %d %r raised %s%s" % (j, m, raised[j], since)))
+        elif got != w:
+            kind = "clock-message-not-one-tick" if m[0] == "clock" else "non-clock-message-calls-target"
+            if kind not in seen:
+                seen.add(kind)
+                bad.append((j, kind, {}, "message %d %r made the clock-target calls %r (0 tick, 1 start, 2 stop, 3 reset), expected %r%s"
+                            % (j, m, got, w, since)))
+    return bad
+
+
+def shrink_midi_in(run, c, j, kind):
+    """neighbouring smaller inputs that still fail in the same way: the two clock messages around the offence alone,
+    then the clock/transport messages alone; otherwise the case cut after the offence"""
+    cut = {"has_target": c["has_target"], "has_cb": c["has_cb"], "intra": c.get("intra", 0),
+           "msgs": c["msgs"][:j + 1], "times": c["times"][:j + 1]}
+    idx = [i for i in range(j + 1) if c["msgs"][i][0] == "clock"]
+    cands = []
+    if c["msgs"][j][0] == "clock" and len(idx) >= 2:
+        cands.append(idx[-2:])
+    cands.append([i for i in range(j + 1) if c["msgs"][i][0] in ("clock",) + TRANSPORT])
+    for keep in cands:
+        if not keep or len(keep) > j:
+            continue
+        small = dict(cut, msgs=[c["msgs"][i] for i in keep], times=[c["times"][i] for i in keep])
+        try:
+            rr = run.impl("c14_impl", {"midi_in": [small]})["midi_in"][0]
+        except Exception:
+            continue
+        if "error" in rr:
+            continue
+        b = [x for x in judge_midi_in(run, small, rr) if x[1] == kind]
+        if b:
+            return small, b[0]
+    return cut, None
+
+
+def enc5(calls):
+    v = 0
+    for x in calls:
+        v = v * 5 + (x + 1)
+    return v
+
+
+def tempo_lits(c, r):
+    """(k, literals): the estimates the harness compares — after every clock message among the first k messages, while
+    the readings are strictly increasing and the clock does not move inside a callback (what the estimate is otherwise
+    the property does not say), and while the exact rational of the model stays below ~1500 bits"""
+    if c.get("intra", 0):
+        return 0, []
+    out, k, bits = [], 0, 0.0
+    ivs = clock_intervals(c)
+    tempos = iter(r.get("tempos", []))
+    for j, m in enumerate(c["msgs"]):
+        if m[0] != "clock":
+            continue
+        iv = ivs[j]
+        t = next(tempos, "missing")
+        if iv is not None:
+            if iv <= 0:
+                break
+            bits += math.log2(800 * iv)
+            if bits > 1500 or len(out) >= 200:
+                break
+        if t is None:
+            out += [0, -1]
+        elif isinstance(t, list) and t[1] > 0 and t[1] & (t[1] - 1) == 0:
+            out += [t[0], t[1].bit_length() - 1]
+        else:
+            out += [0, 0]           # not a finite float: cannot agree with a positive estimate
+        k = j + 1
+    return k, out
+
+
 def check_midi(run):
     rng = run.rng
-    n = 90 if run.tier == "quick" else 1500
+    per = 11 if run.tier == "quick" else 120
     cases = []
-    for i in range(n):
-        cases.append({"has_target": rng.random() < 0.85, "has_cb": rng.random() < 0.4,
-                      "msgs": gen_msgs(rng, rng.randint(5, 160))})
-    cases.append({"has_target": True, "has_cb": False, "msgs": [["start"], ["clock"], ["stop"], ["songpos", 0], ["songpos", 5], ["continue"]]})
+    for i in range(per * len(PROFILES)):
+        profile = PROFILES[i % len(PROFILES)]
+        n = rng.randint(5, 160)
+        msgs = gen_transport(rng, n) if rng.random() < 0.35 else gen_msgs(rng, n)
+        times, intra = gen_times(rng, msgs, profile)
+        cases.append({"has_target": rng.random() < 0.85, "has_cb": rng.random() < 0.4, "msgs": msgs, "times": times,
+                      "intra": intra, "profile": profile})
+    fixed = [["start"], ["clock"], ["stop"], ["songpos", 0], ["songpos", 5], ["continue"]]
+    cases.append({"has_target": True, "has_cb": False, "msgs": fixed, "times": [1000 * UNIT + 10 * i for i in range(len(fixed))],
+                  "intra": 0, "profile": "back-to-back"})
     res = run_sharded(run, "midi_in", cases, lambda c: len(c["msgs"]))
     terms, meta = [], []
     for c, r in zip(cases, res):
         run.count(len(c["msgs"]))
         run.dist("midi_in.target=%s.cb=%s" % (c["has_target"], c["has_cb"]))
+        run.dist("midi_in.time=%s" % c["profile"])
+        ivs = [iv for iv in clock_intervals(c) if iv is not None]
+        for name, f in (("zero", lambda x: x == 0), ("negative", lambda x: x < 0), ("<1ms", lambda x: 0 < x < UNIT // 1000),
+                        ("1ms-1s", lambda x: UNIT // 1000 <= x <= UNIT), ("1s-10s", lambda x: UNIT < x <= 10 * UNIT),
+                        (">10s", lambda x: x > 10 * UNIT)):
+            if any(f(x) for x in ivs):
+                run.dist("midi_in.clock-interval %s" % name)
         run.nontrivial("midi_in %r" % (c,))
-        snippet = "see harness/impl/c14_impl.py run_midi_in; case: %s" % json.dumps(c)[:1500]
         if "error" in r:
-            run.violation({"kind": "midi-in-raises", "site": "MidiInputDevice._callback"}, {"case": c, "observed": r["error"], "python": snippet})
+            run.violation({"kind": "midi-in-raises", "site": "MidiInputDevice._callback"},
+                          {"case": c, "observed": r["error"], "python": midi_snippet(c)})
             continue
-        # oracle: one tick per clock message, start/stop/songpos 0 -> start/stop/reset, nothing else reaches the target
-        want = {"clock": [0], "start": [1], "stop": [2]}
-        bad = None
-        for j, (m, got) in enumerate(zip(c["msgs"], r["per_msg"])):
-            w = want.get(m[0], [3] if m[0] == "songpos" and m[1] == 0 else [])
-            if not c["has_target"]:
-                w = []
-            run.cov["oracle_evaluations"] += 1
-            if got != w:
-                bad = (j, m, got, w)
-                break
+        bad = judge_midi_in(run, c, r)
+        for j, kind, extra, text in bad:
+            sig = {"kind": kind, "site": "MidiInputDevice._callback"}
+            sig.update(extra)
+            probe = dict(sig)
+            if any(k.get("status") == "known" and all(probe.get(a) == b for a, b in k.get("match", {}).items()) for k in run.known) \
+                    or any(v["sig"] == json.dumps(sig, sort_keys=True) for v in run.violations):
+                run.violation(sig, {})          # known / already reported: no shrinking run
+                continue
+            small, b = shrink_midi_in(run, c, j, kind)
+            run.violation(sig, {"case": small, "observed": (b[3] if b else text), "profile": c["profile"],
+                                "expected": "exactly one clock_target.tick() per 'clock' message, start/stop/songpos 0 -> start/stop/reset, "
+                                            "nothing else, no exception — whatever the wall-clock instants of the messages",
+                                "python": midi_snippet(small)})
         if bad:
-            j, m, got, w = bad
-            kind = "clock-message-not-one-tick" if m[0] == "clock" else "non-clock-message-calls-target"
-            run.violation({"kind": kind, "site": "MidiInputDevice._callback"}, {
-                "case": {"has_target": c["has_target"], "has_cb": c["has_cb"], "msgs": c["msgs"][:j + 1]},
-                "observed": "message %d %r made the clock-target calls %r (0 tick, 1 start, 2 stop, 3 reset), expected %r" % (j, m, got, w),
-                "python": snippet})
             continue
         if r.get("ticks_per_beat") != 24:
             run.violation({"kind": "midi-in-rate", "site": "MidiInputDevice.ticks_per_beat"}, {
-                "case": {}, "observed": "MidiInputDevice.ticks_per_beat = %r, MIDI clock is 24 PPQN" % r.get("ticks_per_beat"), "python": snippet})
-        terms.append("midi_in_ok %s %s %s %s %s %s" % (
-            blit(c["has_target"]), blit(c["has_cb"]), lst([msg_lit(m, i) for i, m in enumerate(c["msgs"])]),
-            zlist(r["calls"]), zlist(r["user"]), zlist(r["queue"])))
-        meta.append((c, bad, "MidiInputDevice._callback"))
+                "case": {}, "observed": "MidiInputDevice.ticks_per_beat = %r, MIDI clock is 24 PPQN" % r.get("ticks_per_beat"), "python": midi_snippet(c)})
+        t0 = min(c["times"])
+        k, tempos = tempo_lits(c, r)
+        run.cov["midi_tempo_estimates_compared"] = run.cov.get("midi_tempo_estimates_compared", 0) + len(tempos) // 2
+        terms.append("(let ms := %s in midi_in_ok %s %s ms %s %s %s && midi_in_timed_ok %d %s %s %s ms %d%%nat %s %s)" % (
+            lst([msg_lit(m, i) for i, m in enumerate(c["msgs"])]),
+            blit(c["has_target"]), blit(c["has_cb"]), zlist(r["calls"]), zlist(r["user"]), zlist(r["queue"]),
+            UNIT, blit(c["has_target"]), zlit(c["intra"]), zlist([t - t0 for t in c["times"]]), k,
+            zlist([enc5(x) for x in r["per_msg"]]), zlist(tempos)))
+        meta.append((c, None, "MidiInputDevice._callback"))
     # a Timeline clocked by the MIDI input
-    n2 = 50 if run.tier == "quick" else 800
+    per2 = 5 if run.tier == "quick" else 60
     tcases = []
-    for i in range(n2):
+    for i in range(per2 * len(PROFILES)):
+        profile = PROFILES[i % len(PROFILES)]
         nd = rng.choice((1, 2, 3))
         devs = []
         for _ in range(nd):
             u = rng.random()
             devs.append(rng.choice([1, 2, 3, 4, 6, 8, 12, 24]) if u < 0.35 else 24 * rng.randint(1, 80) if u < 0.55 else
                         "midi" if u < 0.72 else None if u < 0.85 else rng.choice([5, 7, 9, 10, 16, 36, 100, 480 + 1]))
-        tcases.append({"devs": devs, "msgs": gen_msgs(rng, rng.randint(5, 120), allow_startstop=False)})
+        n = rng.randint(5, 120)
+        msgs = strip_startstop(gen_transport(rng, n)) if rng.random() < 0.35 else gen_msgs(rng, n, allow_startstop=False)
+        times, intra = gen_times(rng, msgs, profile)
+        tcases.append({"devs": devs, "msgs": msgs, "times": times, "intra": intra, "profile": profile})
     tres = run_sharded(run, "midi_tl", tcases, lambda c: len(c["msgs"]))
     for c, r in zip(tcases, tres):
         run.count(len(c["msgs"]))
         run.nontrivial("midi_tl %r" % (c,))
-        snippet = "see harness/impl/c14_impl.py run_midi_tl; case: %s" % json.dumps(c)[:1500]
+        run.dist("midi_tl.time=%s" % c["profile"])
+        snippet = "see harness/impl/c14_impl.py run_midi_tl (instants in units of 2^-20 s); case: %s" % json.dumps(c)[:1500]
         if "error" in r:
             run.violation({"kind": "midi-in-raises", "site": "MidiInputDevice->Timeline"}, {"case": c, "observed": r["error"], "python": snippet})
             continue
         refused = any(truthy(dev_rate(s)) and not divides_either(dev_rate(s), 24) for s in c["devs"])
         run.dist("midi_tl.%s" % ("refused" if refused else "ok"))
+        if r.get("exc"):
+            j, name = r["exc"][0]
+            iv = clock_intervals(c)[j]
+            when = raise_when(c, j)
+            run.violation({"kind": "midi-in-raises", "site": "MidiInputDevice->Timeline", "error": name, "when": when}, {
+                "case": {"devs": c["devs"], "msgs": c["msgs"][:j + 1], "times": c["times"][:j + 1], "intra": c["intra"]},
+                "observed": "message %d %r raised %s%s" % (j, c["msgs"][j], name, "" if iv is None else " (%s after the previous clock message)" % secs(iv)),
+                "python": snippet})
+            continue
         # oracle
         pos, nclk, bad = 0, 0, None
+        ivs = clock_intervals(c)
         per, code = expected_timeline(24, c["devs"], sum(1 for m in c["msgs"] if m[0] == "clock"))
         for j, m in enumerate(c["msgs"]):
             if j >= len(r["obs"]):
@@ -830,23 +1114,27 @@ def check_midi(run):
             bad = (len(r["obs"]) - 1, None, r["code"], 0)
         if bad:
             j, m, got, w = bad
+            iv = ivs[j] if j < len(ivs) else None
             run.violation({"kind": "midi-clock-timeline", "site": "MidiInputDevice->Timeline"}, {
-                "case": {"devs": c["devs"], "msgs": c["msgs"][:j + 1]},
-                "observed": "message %d %r: (device ticks, timeline position in ticks) = %r, expected %r" % (j, m, got, w), "python": snippet})
+                "case": {"devs": c["devs"], "msgs": c["msgs"][:j + 1], "times": c["times"][:j + 1], "intra": c["intra"]}, "profile": c["profile"],
+                "observed": "message %d %r%s: (device ticks, timeline position in ticks) = %r, expected %r" % (
+                    j, m, "" if iv is None else " arriving %s after the previous clock message by time.time()" % secs(iv), got, w),
+                "python": snippet})
             continue
         mslit = lst([msg_lit(m, i) for i, m in enumerate(c["msgs"])])
         obs = "[" + "; ".join("(%s, %s)" % (zlist(o[0]), zlit(o[1])) for o in r["obs"]) + "]"
         terms.append("midi_tl_ok %s %s %s %s" % (lst([rlit(dev_rate(s)) for s in c["devs"]]), mslit, obs, zlit(r["code"])))
         meta.append((c, bad, "MidiInputDevice->Timeline"))
     run.sample({"midi_in_msgs": cases[0]["msgs"][:8], "target_calls": res[0].get("calls", [])[:8]})
-    failing = run.coq_failing(HEADER, terms, chunk=12, jobs=14)
+    failing = run.coq_failing(HEADER_MIDI, terms, chunk=12, jobs=14)
     run.cov["traces_validated_against_impl"] += len(terms) - len(failing)
     for i in failing:
         c, bad, site = meta[i]
         if bad:
             continue
         run.violation({"kind": "correspondence", "site": site}, {
-            "broken": "correspondence model/implementation on %s (C14_midi_in no longer speaks about this code)" % site,
+            "broken": "correspondence model/implementation on %s (calls per message, tempo estimate on increasing readings; "
+                      "C14_midi_in / C14_midi_in_timed / C14_midi_tempo_* no longer speak about this code)" % site,
             "case": c, "coq_term": terms[i][:2000]}, found_input=False)
 
 
